@@ -537,6 +537,18 @@ def gen_cases(seed, tier, shard, nshards):
                                                nonce, core.hx(data), pstr(p), inpl), '',
             sig('SL', shape, len(key), at, p[at] >> 12, sum(p[:at]) % 16, p[at] % 16,
                 len(p) - at, inpl))
+    # one stream per run in which a single bulk call crosses block 65536 (the
+    # counter carries out of its second byte inside an accelerated call), after
+    # a first bulk call of just under 1 MiB, followed by sub-block calls
+    if shard == 0:
+        pre = [(65536 - 100) * 16 - 5, 5]
+        p = pre + [200 * 16 + 7] + subblock_calls(rnd, 16 * 3 + 5) + [4096 + 3, 0, 9]
+        n = sum(p)
+        key = rbytes(rnd, rnd.choice([16, 32]))
+        data = rbytes(rnd, n)
+        add('ctr', 'S %d %d %s %d %s %s %d' % (rnd.randrange(16), rnd.randrange(16), key.hex(),
+                                               rand_nonce(rnd), core.hx(data), pstr(p), 0), '',
+            sig('SX', 'cross-65536', len(key), n))
     return cases
 
 
